@@ -386,3 +386,141 @@ def make_rle_repeat_frames(rng, count):
         out.append({'frame': f, 'content': bytes(history), 'params': {'wlog': wlog, 'kind': kind}, 'cls': 'synthetic-rle-repeat',
                     'producer': 'synthetic', 'oversized': False, 'over128k': False, 'features': ['%s-mode:rle' % kind, '%s-mode:repeat' % kind]})
     return out
+
+
+def make_dictionary(rng, dict_id=None, content=None):
+    """a hand-built formatted dictionary (RFC 8878 section 5): magic, id, Huffman table (direct weights), OF / ML / LL
+    FSE table descriptions, three repeat offsets, content.  Returns (bytes, info)"""
+    import entropy_spec
+    T = tables()
+    dict_id = dict_id or rng.range(1, (1 << 31) - 1)
+    content = content if content is not None else rng.bytes(rng.choice([8, 9, 33, 100, 257, 1000, 5000]))
+    # tables: the predefined distributions, or perturbed ones (move probability mass between two symbols)
+    dists = {}
+    for kind, nm, al in (('of', 'OF_defaultNorm', 5), ('ml', 'ML_defaultNorm', 6), ('ll', 'LL_defaultNorm', 6)):
+        p = list(T[nm])
+        if rng.below(2):
+            big = [i for i, x in enumerate(p) if x >= 2]
+            i = rng.choice(big)
+            j = rng.choice([k for k in range(len(p)) if k != i and p[k] >= 1])
+            p[i] -= 1
+            p[j] += 1
+        dists[kind] = (p, al)
+    nw = rng.choice([2, 4, 8])
+    # weights: nw symbols of weight 1 (power of two count) -> the implied last weight completes the table
+    weights = [1] * nw
+    huf = bytes([127 + nw]) + bytes((weights[i] << 4) | (weights[i + 1] if i + 1 < nw else 0) for i in range(0, nw, 2))
+    clen = len(content)
+    reps = [rng.range(1, clen), rng.range(1, clen), rng.range(1, clen)]
+    d = (0xEC30A437).to_bytes(4, 'little') + dict_id.to_bytes(4, 'little') + huf
+    for kind in ('of', 'ml', 'll'):
+        d += entropy_spec.fse_write_description(*dists[kind])
+    for r in reps:
+        d += r.to_bytes(4, 'little')
+    d += content
+    return d, {'id': dict_id, 'content': content, 'reps': reps, 'dists': dists}
+
+
+def make_dict_boundary_frames(rng, count, dinfo, name_dict=True):
+    """frames whose sequences reach into the dictionary content at every alignment with the dictionary/output boundary;
+    tables in 'repeat' mode in the first block are the dictionary's tables; offset codes 1-3 in the first sequence are
+    the dictionary's repeat offsets.  'expect' is None when the frame must be rejected (offset beyond dictionary plus
+    output)."""
+    out = []
+    content = dinfo['content']
+    clen = len(content)
+    for _ in range(count):
+        wlog = rng.choice([10, 10, 12, 17])
+        history = bytearray(content)
+        rep = list(dinfo['reps'])
+        state = {'ll': Tbl(), 'ml': Tbl(), 'of': Tbl()}
+        for kind in state:
+            p, al = dinfo['dists'][kind]
+            state[kind].cur = ('fse', build_dtable(p, al), al)
+        body = b''
+        feats = set()
+        bad = False
+        produced = 0
+        nblocks = rng.choice([1, 2, 3])
+        if rng.below(3) == 0:
+            d0 = rng.bytes(rng.choice([1, 7, 300]))
+            body += block_header(0, 0, len(d0)) + d0
+            history += d0
+            produced += len(d0)
+        ok = True
+        for bi in range(nblocks):
+            last = 1 if bi == nblocks - 1 else 0
+            seqs, lits = [], bytearray()
+            cur = produced
+            for k in range(rng.choice([1, 2, 3, 8])):
+                ll = rng.choice([0, 0, 1, 2, 5, 30])
+                cur += ll
+                r = rng.below(12)
+                reach = cur + clen
+                if r < 2:
+                    ov = rng.choice([1, 2, 3]); feats.add('repcode')
+                elif r < 5:
+                    off = cur + rng.range(1, clen); ov = off + 3            # starts inside the dictionary
+                elif r == 5:
+                    off = reach; ov = off + 3; feats.add('first-dict-byte')
+                elif r == 6:
+                    off = cur + 1 if cur + 1 <= reach else reach; ov = off + 3; feats.add('last-dict-byte')
+                elif r == 7 and cur > 0:
+                    off = cur; ov = off + 3; feats.add('first-output-byte')
+                elif r == 8 and rng.below(3) == 0:
+                    off = reach + rng.choice([1, 2, 100]); ov = off + 3; bad = True; feats.add('beyond-dict')
+                else:
+                    off = rng.range(1, reach); ov = off + 3
+                ml = rng.choice([3, 4, 5, 9, 40, 300])
+                if ov > 3 and ov - 3 > cur:
+                    in_dict = ov - 3 - cur
+                    ml = rng.choice([3, in_dict - 1, in_dict, in_dict + 1, in_dict + 7, 2 * in_dict + 3])
+                    ml = max(3, min(ml, 2000))
+                    feats.add('straddle' if ml > in_dict else 'exact' if ml == in_dict else 'inside-dict')
+                lits += rng.bytes(ll)
+                seqs.append((ll, ml, ov))
+                cur += ml
+            tail = rng.choice([0, 0, 3])
+            lits += rng.bytes(tail)
+            modes = {}
+            for kind in ('ll', 'ml', 'of'):
+                modes[kind] = rng.choice(['predef', 'repeat', 'repeat', 'rle'])
+            new_hist = apply_sequences(bytearray(history), bytes(lits), seqs, rep)
+            if new_hist is not None and len(new_hist) - len(history) > min(131072, 1 << wlog):
+                ok = False
+                break
+            saved = {k: state[k].cur for k in state}
+            blk = None
+            for attempt in range(4):
+                blk = compressed_block(bytes(lits), 'raw', seqs, modes, state, last if new_hist is not None else 1)
+                if blk is not None:
+                    break
+                for k in state:
+                    state[k].cur = saved[k]
+                badm = [k for k in modes if modes[k] != 'predef']
+                if not badm:
+                    break
+                modes[rng.choice(badm)] = 'predef'
+            if blk is None:
+                ok = False
+                break
+            body += blk
+            for kind in modes:
+                feats.add('%s-mode:%s%s' % (kind, modes[kind], '-dict' if modes[kind] == 'repeat' and bi == 0 else ''))
+            if new_hist is None:
+                history = None
+                break
+            produced += len(new_hist) - len(history)
+            history = new_hist
+        if not ok or not body:
+            continue
+        if history is not None and produced > (1 << wlog):
+            feats.add('beyond-window')
+        expect = bytes(history[clen:]) if history is not None else None
+        ck = rng.below(2) if expect is not None else 0
+        f = frame_header_bytes(window_log=wlog, fcs=None, checksum=ck, dict_id=dinfo['id'] if name_dict else 0) + body
+        if ck:
+            f += (xxh64(expect) & 0xFFFFFFFF).to_bytes(4, 'little')
+        out.append({'frame': f, 'content': expect, 'params': {'wlog': wlog}, 'cls': 'synthetic-dict', 'producer': 'synthetic',
+                    'features': sorted(feats), 'named': name_dict})
+    return out
